@@ -1,7 +1,7 @@
 (* C03 - the monitor of Run/C03.v agrees with the model on every reachable state:
    rule precedence by (type-specific before Default, newest id first) is what the
    newest-first scan of the stored id lists computes, and [check] accepts every model run. *)
-From SC Require Import Lib.Prelude Lib.Int Lib.Host Model.SmartAccount Proofs.SmartAccount Proofs.SmartAccountInv Run.C03.
+From SC Require Import Lib.Prelude Lib.Int Lib.Host Model.SmartAccount Proofs.SmartAccount Proofs.SmartAccountInv Proofs.C03Asked Run.C03.
 From Coq Require Import Sorted.
 
 (* ------------------------------------------------------------------------- *)
@@ -432,6 +432,24 @@ Qed.
 Lemma same_enforce_filter_refl l : list_eqb same_enforce (filter is_enforce l) (filter is_enforce l) = true.
 Proof. apply same_enforce_list_refl. intros e He. apply filter_In in He. tauto. Qed.
 
+(* the monitor's [asked] clause: the model's successful check has consulted every policy it enforces
+   (Proofs/C03Asked.v); later events of the same invocation (l2) do not matter *)
+Lemma same_can_refl p c au r : same_can p c au r (ECan p c au r) = true.
+Proof.
+  cbn [same_can]. rewrite N.eqb_refl, same_signers_refl, (proj2 (ctx_eqb_eq c c) eq_refl), (proj2 (rule_eqb_eq r r) eq_refl). reflexivity.
+Qed.
+Lemma asked_model O a now auths sigs cs l l2 :
+  do_check_auth O a now auths sigs cs = Ok l -> asked (l ++ l2) (filter is_enforce l) = true.
+Proof.
+  intros H. unfold asked. apply forallb_forall. intros e He. apply filter_In in He. destruct He as [Hi He].
+  destruct e; try discriminate He. apply existsb_exists. exists (ECan p c auth r). split.
+  - apply in_or_app. left. eapply enforced_was_asked; eauto.
+  - apply same_can_refl.
+Qed.
+Lemma asked_model0 O a now auths sigs cs l :
+  do_check_auth O a now auths sigs cs = Ok l -> asked l (filter is_enforce l) = true.
+Proof. intros H. pose proof (asked_model O a now auths sigs cs l [] H) as A. rewrite app_nil_r in A. exact A. Qed.
+
 Lemma agrees_expectation a M now auths sigs cs :
   wf a ->
   agrees (expectation (a_rules a) M now auths sigs cs)
@@ -441,7 +459,7 @@ Proof.
   destruct (expectation (a_rules a) M now auths sigs cs) as [| |enf]; cbn [agrees].
   - rewrite H. reflexivity.
   - rewrite H. reflexivity.
-  - destruct H as [l [-> Hl]]. rewrite <- Hl. apply same_enforce_filter_refl.
+  - destruct H as [l [E Hl]]. rewrite E, <- Hl, same_enforce_filter_refl. cbn [andb]. eapply asked_model0; exact E.
 Qed.
 
 Lemma model_items_cons c types st cl r :
